@@ -480,7 +480,64 @@ func RouteList(link netlink.Link, family int) ([]netlink.Route, error) {
 	if W.RealKernel {
 		return netlink.RouteList(link, family)
 	}
+	if link != nil {
+		// as the library does it: a filter on the output interface
+		return RouteListFiltered(family, &netlink.Route{LinkIndex: link.Attrs().Index}, netlink.RT_FILTER_OIF)
+	}
 	return W.Routes, W.RouteErr
+}
+
+// RouteListFiltered follows vishvananda/netlink: a route is listed when it agrees with the filter
+// in every field whose bit is set in the mask - fields of the filter without their bit are ignored;
+// the main table unless RT_FILTER_TABLE is given. Destination: nil in the filter matches the routes
+// without destination (the default routes), and only them.
+func RouteListFiltered(family int, filter *netlink.Route, mask uint64) ([]netlink.Route, error) {
+	if W.RealKernel {
+		return netlink.RouteListFiltered(family, filter, mask)
+	}
+	if W.RouteErr != nil {
+		return nil, W.RouteErr
+	}
+	known := netlink.RT_FILTER_OIF | netlink.RT_FILTER_DST | netlink.RT_FILTER_GW | netlink.RT_FILTER_SRC | netlink.RT_FILTER_TABLE | netlink.RT_FILTER_PROTOCOL | netlink.RT_FILTER_SCOPE | netlink.RT_FILTER_TYPE | netlink.RT_FILTER_TOS | netlink.RT_FILTER_IIF
+	if filter == nil {
+		mask = 0
+	} else if mask&^known != 0 {
+		panic(fmt.Sprintf("zzvenv: RouteListFiltered with a filter mask that is not modelled: %#x", mask))
+	}
+	var out []netlink.Route
+	for _, r := range W.Routes {
+		switch {
+		case mask&netlink.RT_FILTER_OIF != 0 && r.LinkIndex != filter.LinkIndex:
+			continue
+		case mask&netlink.RT_FILTER_GW != 0 && !r.Gw.Equal(filter.Gw):
+			continue
+		case mask&netlink.RT_FILTER_SRC != 0 && !r.Src.Equal(filter.Src):
+			continue
+		case mask&netlink.RT_FILTER_PROTOCOL != 0 && r.Protocol != filter.Protocol:
+			continue
+		case mask&netlink.RT_FILTER_SCOPE != 0 && r.Scope != filter.Scope:
+			continue
+		case mask&netlink.RT_FILTER_TYPE != 0 && r.Type != filter.Type:
+			continue
+		case mask&netlink.RT_FILTER_TOS != 0 && r.Tos != filter.Tos:
+			continue
+		case mask&netlink.RT_FILTER_IIF != 0 && r.ILinkIndex != filter.ILinkIndex:
+			continue
+		case mask&netlink.RT_FILTER_TABLE != 0 && filter.Table != 0 && filter.Table != 254 && r.Table != filter.Table:
+			continue
+		}
+		if mask&netlink.RT_FILTER_DST != 0 {
+			if filter.Dst == nil {
+				if r.Dst != nil {
+					continue
+				}
+			} else if r.Dst == nil || !r.Dst.IP.Equal(filter.Dst.IP) || r.Dst.Mask.String() != filter.Dst.Mask.String() {
+				continue
+			}
+		}
+		out = append(out, r)
+	}
+	return out, nil
 }
 
 // ---- ratelimit on the virtual clock ----
